@@ -25,6 +25,7 @@ CHECKS['C06'] = dict(level='model_checking', text='Sequential: every operator/pa
 CHECKS['C14'] = dict(level='model_checking', text='Never-ending pushed source -> operator -> early-terminating downstream for every pass-through operator, the blocking/multi-source/hand-off/sharing operators and pairs of blocking operators, six terminators, each cut position; Subscribe on its own managed thread; after the terminator fired nothing is pushed and the scheduler\'s quiescence is the observation point: source released, Subscribe returned, no library thread left, later push reaches nothing. Plus context cancellation of the context-aware sources under the virtual clock.', note='Deviation bound 1/2; cut positions 1-2 / 1-3; the whole waits-inside-Subscribe class is a recorded known finding (151 signatures).', technique='stateless schedule exploration of the implementation with a quiescence oracle', ref='§5 C14')
 CHECKS['C15'] = dict(level='model_checking', text='All sequences of attempt outcomes up to a bounded number of attempts x every configuration of the re-subscribing operators (retry counts, flags, delays, repeat counts, every truth sequence of loop conditions, fallback counts), played synchronously and from a spawned thread under all schedules, against a reference model of trace and subscription count, with open-attempt overlap and release clauses; context cancellation inside each attempt.', note='Attempts <= 3/4, outcomes of <= 1/2 values, deviation bound 1 for asynchronous attempts; virtual clock for retry delays.', technique='exhaustive enumeration of attempt-outcome histories and configurations against a reference model, schedule exploration for asynchronous attempts', ref='§5 C15')
 CHECKS['C16'] = dict(level='model_checking', text='All time-driven operators on a virtual clock owned by the scheduler: every input timeline over a gap grid around the configured duration, Unsubscribe at every grid instant, every schedule within the deviation bound where an early timer expiry relative to thread progress is a deviation; oracles are lower bounds on virtual time and order/count relations taken from the statement.', note='Durations 1u-3u, timelines of <= 2/3 items, deviation bound 1/2; virtual time only (real timer granularity is out of scope).', technique='stateless model checking with a virtual clock (timer-vs-thread orders enumerated)', ref='§5 C16')
+CHECKS['C17'] = dict(level='model_checking', text='ToChannel and FromChannel under the controlled scheduler with channel shims that count closes and sends on closed channels: every capacity, script, consumer behaviour and unsubscribe point, all schedules within the deviation bound including the virtual 1 ms sleep inside ToChannel; Collect and Materialize/Dematerialize round trips over all bounded scripts.', note='Capacities 0-2, scripts <= 2/3 values, deviation bound 2/3; consumers are managed threads using the same channel shims as the library.', technique='stateless schedule exploration (threads, channels, virtual timers) + exhaustive script enumeration', ref='§5 C17')
 NA = {}
 ALL = ['C%02d' % i for i in range(1, 21)]
 m = {
